@@ -19,8 +19,8 @@ import (
 
 // Pattern grammar of DESIGN.md appendix C.
 var (
-	c11Chars   = []string{"a", "b", "0", "1", "2", "-", "]", "{", "}", ",", " ", "x", ":", "i"}
-	c11Escs    = []string{`\.`, `\-`, `\]`, `\[`, `\^`, `\{`, `\d`, `\w`, `\s`, `\D`, `\b`, `\/`, `\:`, `\@`, `\\`, `\$`, `\(`, `\|`, `\+`,
+	c11Chars = []string{"a", "b", "0", "1", "2", "-", "]", "{", "}", ",", " ", "x", ":", "i"}
+	c11Escs  = []string{`\.`, `\-`, `\]`, `\[`, `\^`, `\{`, `\d`, `\w`, `\s`, `\D`, `\b`, `\/`, `\:`, `\@`, `\\`, `\$`, `\(`, `\|`, `\+`,
 		`\B`, `\A`, `\z`, `\,`, `\0`, `\01`, `\Q\E`, `\Qab\E`, `\Q.\E`, `\x41`, `\}`, `\=`}
 	c11Repeats = []string{"", "", "", "?", "*", "+", "??", "*?", "{0}", "{1}", "{0,1}", "{1,}", "{0,}", "{2}", "{2,3}", "{1,1}", "{0,0}",
 		// counts with a leading zero: Go's regexp reads these braces as literal text
@@ -29,12 +29,12 @@ var (
 		"+?", "{1}?", "{2}?", "{1,}?", "{0,1}?", "{2,3}?",
 		// counts near Go's limit of 1000 for (nested) repeats
 		"{200}", "{501}", "{251}", "{1000}"}
-	c11Items   = []string{"a", "b", "0", "9", "-", "a-z", "0-9", "a-a", "+--", "[:digit:]", "[:alpha:]", `\d`, `\w`, `\-`, `\]`, `\.`, "^", "{", ".", "_", " ", "a-b", "0-1",
+	c11Items = []string{"a", "b", "0", "9", "-", "a-z", "0-9", "a-a", "+--", "[:digit:]", "[:alpha:]", `\d`, `\w`, `\-`, `\]`, `\.`, "^", "{", ".", "_", " ", "a-b", "0-1",
 		"[:space:]", "[:word:]", "[:upper:]", "[:punct:]", `\:`, "[", ":", `\s`, `\S`, `\W`, ":alpha:", "}", ",",
 		"+-[:alpha:]", "*-+", "---", "8-:", `\=`, "=", "+--0",
 		// a short range, a literal dash, a larger item: collapsing the range must not make the dash a range operator
 		"a-b-z", "0-1-9", "a-a-c", "0-0-a-b", "x-x-z", "a-c-z", "0-2-9a"}
-	c11Words   = []string{"ab", "abc", "a", "b", "http", "x0", "0", "ba", "cab", "-", "a-"}
+	c11Words = []string{"ab", "abc", "a", "b", "http", "x0", "0", "ba", "cab", "-", "a-"}
 )
 
 type patGen struct{ rng *rand.Rand }
@@ -177,8 +177,8 @@ func reSubjects(pat string, maxLen int, rng *rand.Rand, extra int) []string {
 }
 
 var (
-	reGroupHead    = regexp.MustCompile(`^(P<n\d>|i:|:)`) // what is left of `(?P<n1>`, `(?i:`, `(?:` before the first alternative
-	rePrefixAlt    = regexp.MustCompile(`([^|()\[\\*+?.^$]+)\|([^|()\[\\*+?.^$]+)`)
+	reGroupHead = regexp.MustCompile(`^(P<n\d>|i:|:)`) // what is left of `(?P<n1>`, `(?i:`, `(?:` before the first alternative
+	rePrefixAlt = regexp.MustCompile(`([^|()\[\\*+?.^$]+)\|([^|()\[\\*+?.^$]+)`)
 )
 
 // c11Classify names the input class of a non-equivalent rewrite. Classes are narrow
